@@ -629,6 +629,76 @@ func runCOW(c *core.Ctx) []core.Obligation {
 		}
 	}
 	b.ok("publishers-outside-recursion", "-", fmt.Sprintf("%d recursive constructors (functions threading a map[reflect.Type] memo) examined; none reaches a cache publisher (%d publishers)", nrec, len(storeFns)))
+	// ---- publish, then never touch: an object handed to a concurrent container (sync.Map,
+	// atomic.Value / atomic.Pointer) is complete at that moment; the publishing function does not
+	// write through it afterwards
+	{
+		nPub := 0
+		for _, fn := range repoSSAFuncs(c) {
+			if fn.Blocks == nil || isInitFunc(fn) {
+				continue
+			}
+			for _, ci := range callsIn(fn) {
+				cc := ci.Common()
+				n := calleeName(cc)
+				isPub := false
+				switch {
+				case strings.HasPrefix(n, "(*sync.Map).") && (strings.HasSuffix(n, ".Store") || strings.HasSuffix(n, ".LoadOrStore") || strings.HasSuffix(n, ".Swap")):
+					isPub = true
+				case strings.HasPrefix(n, "(*sync/atomic.Value).Store"), strings.Contains(n, "sync/atomic.Pointer") && strings.Contains(n, ".Store"):
+					isPub = true
+				}
+				if !isPub {
+					continue
+				}
+				nPub++
+				// pointers published by this call
+				var objs []ssa.Value
+				for _, a := range cc.Args[1:] {
+					if mi, ok := a.(*ssa.MakeInterface); ok {
+						a = mi.X
+					}
+					if isPointerLike(a.Type()) {
+						objs = append(objs, a)
+					}
+				}
+				after := reachableFrom(ci.Block(), nil)
+				for _, obj := range objs {
+					key := fmt.Sprintf("publish-then-frozen:%s:%s", shortName(fn), n)
+					bad := ""
+					for _, blk := range fn.Blocks {
+						if !after[blk] {
+							continue
+						}
+						for _, in := range blk.Instrs {
+							if blk == ci.Block() && instrIndex(in) <= instrIndex(ci) {
+								continue
+							}
+							switch x := in.(type) {
+							case *ssa.Store:
+								if derivesFromValue(x.Addr, obj) && x.Addr != obj {
+									bad = c.InstrPos(x)
+								}
+							case *ssa.MapUpdate:
+								if derivesFromValue(x.Map, obj) {
+									bad = c.InstrPos(x)
+								}
+							}
+						}
+					}
+					if bad != "" {
+						b.bad(key, bad, fmt.Sprintf("%s publishes an object through %s and keeps writing to it afterwards (%s): other goroutines that find it in the container see it half-built", shortName(fn), n, bad))
+					} else {
+						b.ok(key, c.InstrPos(ci), "the published object is not written after publication in this function")
+					}
+				}
+			}
+		}
+		if nPub == 0 {
+			b.ok("publish-then-frozen:none", "-", "no sync.Map / atomic publication outside the caches checked above")
+		}
+	}
+
 	return b.out
 }
 
